@@ -352,35 +352,10 @@ theorem lazyDecLoop_spec (ok : FastOk B P n) (hB : B ≤ 64) (hf : free = 2 ^ P 
     · rw [if_neg hgt]
       exact ih (j + 1) (by omega) (Nat.le_of_not_gt hgt)
 
-/-- the lazy decoder returns the bin of `q` for every admissible skip count `k0`;
-    TB-F2 (soundness of the float-only skip phase) is exactly `cumF (k0 - 1) ≤ q` -/
-theorem lazyDec_spec (ok : FastOk B P n) (hB : B ≤ 64) (hf : free = 2 ^ P - n)
-    (hm : Mono h n) {q k0 : Nat} (hq : q < 2 ^ P)
-    (hk1 : 1 ≤ k0) (hkn : k0 ≤ n) (tbf2 : cumF P n free h (k0 - 1) ≤ q) :
-    ∃ s, IsBin P n free h q s ∧
-      lazyDec B P n free h k0 q = .ok (s, cumF P n free h s, widthF P n free h s) := by
-  have h64 : (2 : Nat) ^ P ≤ 2 ^ 64 := two_pow_le (by have := ok.hPB; omega)
-  have hn := ok.hn
-  obtain ⟨j, rfl⟩ : ∃ j, k0 = j + 1 := ⟨k0 - 1, by omega⟩
-  have e : j + 1 - 1 = j := by omega
-  rw [e] at tbf2
-  unfold lazyDec
-  rw [wsub64_pred hk1 (by omega), e, cadd_cum ok hf _ (by omega)]
-  exact lazyDecLoop_spec ok hB hf hm hq (n - (j + 1)) j (by omega) tbf2
-
 /-- bins are unique, so `lazyDec` is a function of `q` alone: the hint-like `k0` only saves work -/
 theorem IsBin.unique (ok : FastOk B P n) (hf : free = 2 ^ P - n) (hm : Mono h n) {q s t : Nat}
     (hs : IsBin P n free h q s) (ht : IsBin P n free h q t) : s = t :=
   bin_unique ok hf hm hs.1 ht.1 hs.2.1 hs.2.2 ht.2.1 ht.2.2
-
-/-- every quantile below `2^P` has a bin -/
-theorem IsBin.exists (ok : FastOk B P n) (hB : B ≤ 64) (hf : free = 2 ^ P - n) (hm : Mono h n)
-    (h0 : h 0 = 0) {q : Nat} (hq : q < 2 ^ P) : ∃ s, IsBin P n free h q s := by
-  have hn2 := ok.hn2
-  have := lazyDec_spec ok hB hf hm (k0 := 1) hq (by omega) (by omega)
-    (by rw [cumF_zero ok h0]; omega)
-  obtain ⟨s, hs, _⟩ := this
-  exact ⟨s, hs⟩
 
 end
 
